@@ -374,8 +374,11 @@ def run(ctx):
                               f"';' of the last statement becomes mandatory before {' / '.join(missing)}",
                               expr=f"{label_}: ';' optional before {' / '.join(required_)}",
                               site=f"parse_block: {label_}: ';' demanded only when no {' / '.join(required_)} follows")
-        if n_semi == 0:
+        if n_semi == 0 and label_ == "statement section":
             ctx.broken("parse_block", f"no `lexer.match(';')` in the {label_} loop")
+        if n_semi == 0:
+            # nothing demands a ';' here (matchIf / peekn are optional by construction)
+            ctx.ob("C14.sep", f"parse_block: {label_}: no ';' is demanded", True)
 
     semi_rule(sl[0], ("end", "catch", "finally"), "statement section")
     if len(fin) == 1 and len(lp) == 1:
